@@ -1,7 +1,9 @@
 import Dasp.Driver.Loop
+import Dasp.Driver.Signal
 open Dasp.Driver
 
--- stub: replaced when property C04 is wired in
 def main : IO Unit := runDriver fun
+  | "adapt" :: rest => sigLine rest
+  | "exhaust" :: rest => sigLine rest
   | [] => ""
   | _ => "bad-op"
